@@ -193,6 +193,21 @@ func (o *OuterCancel) RLock(ctx context.Context) (context.Context, context.Cance
 	select {
 	case <-o.closeCh:
 		return nil, nil, errLockClosed
+	case <-ctx.Done():
+		// The request is already queued and may sit behind a writer for as long
+		// as that writer holds the lock: stop waiting now. Should the run loop
+		// still grant the request, the hold is given back straight away, so that
+		// a call which reported an error holds nothing.
+		go func() {
+			select {
+			case resp := <-h.respCh:
+				if resp.cancel != nil {
+					resp.cancel()
+				}
+			case <-o.closeCh:
+			}
+		}()
+		return nil, nil, ctx.Err()
 	case resp := <-h.respCh:
 		return resp.rctx, resp.cancel, resp.err
 	}
